@@ -4,7 +4,7 @@ def run(tier, seed):
     d = {g.name: g for g in families.g_dir() + families.g_err()}
     R = report.Run('C16', tier, seed); cases = []
     if tier == 'quick': sel = [(d['interl'], [2]), (d['lrece'], [2]), (d['d1'], [2]), (d['er2'], [2]), (d['nullrun'], [2])]
-    else: sel = [(d[n], [1, 2] if n not in ('interl', 'er2', 'lrece') else [1, 2, 3]) for n in ('interl', 'd1', 'd2', 'lrece', 'rrece', 'etf', 'chain', 'lalr', 'nullrun', 'mutleft', 'trail', 'e123', 'er1', 'er2', 'er3', 'er4')]
+    else: sel = [(d[n], [1, 2] if n != 'interl' else [1, 2, 3]) for n in ('interl', 'd1', 'd2', 'lrece', 'rrece', 'etf', 'chain', 'nullrun', 'e123', 'er1', 'er2', 'er3')]
     # run 1: no stream, verbose off; run 2: recording stream, verbose on.  Same optional / value / functor calls; the verbose event log is the reference action sequence
     cp.run_parse_property('C16', tier, seed, sel, ['accept', 'value', 'dual', 'trace'], '', cp.STD_OUTSIDE + ['std::ostream formatting (the pieces streamed are observed)'],
                           cp.STD_ASSUME + ['verbose log compared through a rolling add/rotate hash over (kind, line, column, term / rule / lexeme) plus printed state numbers up to a bijection; '
